@@ -91,7 +91,7 @@ CHECKS = {
         text="Dict.tla states the dictionary: load-ordered definitions (built-ins, then user files), later wins per name and per display, parent-first "
              "transitive resolution, accepted iff every entry is named, no dangling attribute/extends, acyclic. Every enumerated user dictionary (pool of "
              "entries x attribute-file variants; all one-entry and - thorough - all two-entry dictionaries incl. every cycle shape) is loaded by the real "
-             "binary and each user name/display played; built-ins: attr list = gen attr, English names, every chord by name and display.",
+             "binary and each user name/display played; built-ins: attr list = gen attr, English names (also where used: one user chord per built-in attribute, played), every chord by name and display.",
         note=TB + "; combinations where a user override would change a built-in that inherits from it are not generated (the property is silent)",
         technique="TLA+ dictionary model (Dict.tla) + TLC validation of real CLI runs over an enumerated dictionary space"),
     "C04": dict(
@@ -124,7 +124,7 @@ CHECKS = {
              "nonsense x delivery channel x interpreting stage matrix (RunsMC enumerates it; the driver's cells must cover every live cell); LexerMC proves "
              "every scan loop of the lexer model ends at end of input. Every run of the real binary is judged by TLC: all matrix cells with several concrete "
              "renderings, and seeded byte-level exploration (truncation of valid inputs at every offset, mutations, random bytes, invalid UTF-8, over-long "
-             "inputs, stdin and FILE, flag values, broken dictionary files) under a watchdog. The arbitrary-bytes part is exploration, not exhaustive.",
+             "inputs, stdin and FILE, flag values incl. every note / key spelling with mixed accidental marks, broken dictionary files) under a watchdog. The arbitrary-bytes part is exploration, not exhaustive.",
         note=TB + "; a hang is only reported after the run also failed to return alone with a 40 s watchdog",
         technique="TLA+ outcome protocol + matrix (Runs.tla) as trace specification; TLC validates every real CLI run"),
     "C10": dict(
